@@ -1323,7 +1323,9 @@ def is_assertion_guard(body, gb):
         for s_ in set(body.succs(gb)):
             if body.is_cleanup(s_):
                 continue
-            if not (body.reachable_from(s_) & rets):
+            reach = body.reachable_from(s_)
+            panics = any(body.term(x)["t"] == "call" and body.term(x).get("target") is None for x in reach if not body.is_cleanup(x))
+            if not (reach & rets) and panics:     # (the `unreachable` arm of an exhaustive enum match is not a panic)
                 res = True
     cache[gb] = res
     return res
